@@ -23,10 +23,11 @@ import os, sys, io, json, threading, itertools, weakref, hashlib, time
 import lib
 from lib import gz, glist, gbool
 
-THEOREMS = ['C12_built_once', 'C12_served_whole', 'C12_no_interference', 'C12_schedule_independent',
+THEOREMS = ['C12_built_once', 'C12_prebuilt_never_rebuilt', 'C12_served_whole', 'C12_no_interference', 'C12_schedule_independent',
             'C12_steps_bounded', 'C12_no_deadlock', 'C12_all_served',
             'C12_memo_transparent', 'C12_attrs_transparent', 'C12_sort_transparent', 'C12_errlog_isolated', 'C12_validator_error_isolated',
-            'C12_mutual_exclusion', 'C12_text_is_model_text', 'C12_text_paths',
+            'C12_mutual_exclusion', 'C12_text_is_model_text', 'C12_text_paths', 'C12_state_writers_pinned',
+            'C12_exact_cache_transparent', 'C12_fallback_cache_refuted',
             'C12_pinned_wsdl_refuted', 'C12_pinned_attrs_refuted', 'C12_pinned_errlog_refuted']
 
 TNS = 'c12.tns'
@@ -303,6 +304,17 @@ class RandomChooser(object):
         others = [t for t in enabled if t != cur] or enabled
         return self.rng.choice(others)
 
+class OrderChooser(object):
+    """no interleaving at all: the threads run to completion one after the other, in the given order
+    (a request history on one application)"""
+    def __init__(self, order):
+        self.order = list(order)
+    def __call__(self, sched, cur, enabled, kind):
+        for t in self.order:
+            if t in enabled:
+                return t
+        return enabled[0]
+
 class AccessScript(object):
     """`script` names the thread that performs each successive SHARED ACCESS (the model's
     notion of a schedule).  A thread that has not yet reached its first access point is
@@ -508,7 +520,9 @@ class World(object):
     pass
 
 
-def make_world(sched, instrument=True, validator='lxml', monitor=True):
+MARKER = b'<!--c12-document-built-handler-->'
+
+def make_world(sched, instrument=True, validator='lxml', monitor=True, pre=False, need='jxy'):
     from spyne import Application, rpc, ServiceBase, Unicode, Integer, ComplexModel, Array, Fault
     from spyne.protocol.soap import Soap11
     from spyne.protocol.xml import XmlDocument
@@ -559,42 +573,135 @@ def make_world(sched, instrument=True, validator='lxml', monitor=True):
     wsgi = WsgiApplication(app)
     w.app, w.wsgi, w.in_prot, w.out_prot = app, wsgi, in_prot, out_prot
 
-    # a second application on the JSON protocols (soft validation): its responses go through
-    # sort_fields / get_cls_attrs of the out protocol (the member order of JItem is a protocol attribute)
-    from spyne.protocol.json import JsonDocument
+    if 'j' in need:
+        # a second application on the JSON protocols (soft validation): its responses go through
+        # sort_fields / get_cls_attrs of the out protocol (the member order of JItem is a protocol attribute)
+        from spyne.protocol.json import JsonDocument
 
-    class JItem(ComplexModel):
-        __namespace__ = TNS + '.j'
-        name = Unicode(order=0, pa={JsonDocument: dict(order=2)})
-        qty = Integer(order=1)
-        note = Unicode(order=2, pa={JsonDocument: dict(order=0)})
+        class JItem(ComplexModel):
+            __namespace__ = TNS + '.j'
+            name = Unicode(order=0, pa={JsonDocument: dict(order=2)})
+            qty = Integer(order=1)
+            note = Unicode(order=2, pa={JsonDocument: dict(order=0)})
 
-    class JBox(ComplexModel):
-        __namespace__ = TNS + '.j'
-        owner = Unicode
-        items = Array(JItem)
+        class JBox(ComplexModel):
+            __namespace__ = TNS + '.j'
+            owner = Unicode
+            items = Array(JItem)
 
-    class JSvc(ServiceBase):
-        @rpc(Unicode, Integer, _returns=JBox)
-        def jbox(ctx, owner, n):
-            return JBox(owner=owner, items=[JItem(name=u'%s-%d' % (owner, i), qty=i, note=u'n%d' % i)
-                                            for i in range(n or 0)])
+        class JBase(ComplexModel):
+            __namespace__ = TNS + '.j'
+            a = Unicode
+            b = Integer
 
-        @rpc(Integer(ge=0), _returns=Integer)
-        def jsq(ctx, a):
-            return (a or 0) * (a or 0)
+        class JChild(JBase):
+            __namespace__ = TNS + '.j'
+            c = Unicode
 
-        @rpc(JBox, _returns=Unicode(pa={JsonDocument: dict(str_format=u'<{0}>')}))
-        def jsum(ctx, b):
-            return u'%s:%d' % (b.owner, sum((i.qty or 0) for i in (b.items or [])))
+        class JTags(ComplexModel):       # a repeated member with a list default
+            __namespace__ = TNS + '.j'
+            t = Unicode(max_occurs='unbounded', default=['base'])
 
-        @rpc(Unicode, _returns=Unicode)
-        def jboom(ctx, code):
-            raise Fault('Client.JBoom%s' % code, 'jboom %s' % code)
+        class JSvc(ServiceBase):
+            @rpc(Unicode, Integer, _returns=JBox)
+            def jbox(ctx, owner, n):
+                return JBox(owner=owner, items=[JItem(name=u'%s-%d' % (owner, i), qty=i, note=u'n%d' % i)
+                                                for i in range(n or 0)])
 
-    w.j_in, w.j_out = JsonDocument(validator='soft'), JsonDocument()
-    w.japp = Application([JSvc], TNS + '.j', name='C12JsonApp', in_protocol=w.j_in, out_protocol=w.j_out)
-    w.jwsgi = WsgiApplication(w.japp)
+            @rpc(Integer(ge=0), _returns=Integer)
+            def jsq(ctx, a):
+                return (a or 0) * (a or 0)
+
+            @rpc(JBox, _returns=Unicode(pa={JsonDocument: dict(str_format=u'<{0}>')}))
+            def jsum(ctx, b):
+                return u'%s:%d' % (b.owner, sum((i.qty or 0) for i in (b.items or [])))
+
+            @rpc(Unicode, _returns=Unicode)
+            def jboom(ctx, code):
+                raise Fault('Client.JBoom%s' % code, 'jboom %s' % code)
+
+            # parameter types related by inheritance, also sent in positional (array) form
+            @rpc(JBase, _returns=Unicode)
+            def jpar(ctx, p):
+                return u'%s|%s' % (p.a, p.b)
+
+            @rpc(JChild, _returns=Unicode)
+            def jchi(ctx, p):
+                return u'%s|%s|%s' % (p.a, p.b, p.c)
+
+            @rpc(JTags, _returns=Unicode)
+            def jtags(ctx, x):
+                return u','.join(x.t or [])
+
+        w.j_in, w.j_out = JsonDocument(validator='soft'), JsonDocument()
+        w.japp = Application([JSvc], TNS + '.j', name='C12JsonApp', in_protocol=w.j_in, out_protocol=w.j_out)
+        w.jwsgi = WsgiApplication(w.japp)
+
+    if 'x' in need:
+        # a third application: SOAP 1.1 with SOFT validation (no schema is built at start-up, so everything the WSDL
+        # build fills lazily is still empty when the first RPC arrives), types in a second namespace, polymorphic
+        # responses (xsi:type), parameter types related by inheritance, a repeated member with a list default
+        class XItem(ComplexModel):
+            __namespace__ = TNS + '.x2'
+            name = Unicode
+
+        class XBase(ComplexModel):
+            __namespace__ = TNS + '.x'
+            a = Unicode
+            b = Integer
+
+        class XChild(XBase):
+            __namespace__ = TNS + '.x2'
+            c = Unicode
+
+        class XSvc(ServiceBase):
+            @rpc(Unicode, _returns=XItem)
+            def xget(ctx, s):
+                return XItem(name=s)
+
+            @rpc(Unicode, _returns=XBase)
+            def xpoly(ctx, kind):
+                return XChild(a=u'a', b=1, c=u'c') if kind == 'c' else XBase(a=u'a', b=2)
+
+            @rpc(XBase, _returns=Unicode)
+            def xpar(ctx, p):
+                return u'%s|%s' % (p.a, p.b)
+
+            @rpc(XChild, _returns=Unicode)
+            def xchi(ctx, p):
+                return u'%s|%s|%s' % (p.a, p.b, p.c)
+
+        w.x_in, w.x_out = Soap11(validator='soft'), Soap11(polymorphic=True)
+        w.xapp = Application([XSvc], TNS + '.x', name='C12SoftApp', in_protocol=w.x_in, out_protocol=w.x_out)
+        w.xwsgi = WsgiApplication(w.xapp)
+
+    if 'y' in need:
+        # a fourth, tiny one for the XML deserializer and a repeated member with a list default (its schema cannot be
+        # written - the emitter has no literal for a list default - so this application is never asked for its WSDL)
+        class YTags(ComplexModel):
+            __namespace__ = TNS + '.y'
+            t = Unicode(max_occurs='unbounded', default=['base'])
+
+        class YSvc(ServiceBase):
+            @rpc(YTags, _returns=Unicode)
+            def ytags(ctx, x):
+                return u','.join(x.t or [])
+
+        w.yapp = Application([YSvc], TNS + '.y', name='C12ListDefaultApp', in_protocol=Soap11(validator='soft'),
+                             out_protocol=Soap11())
+        w.ywsgi = WsgiApplication(w.yapp)
+
+    # handlers of the documented `wsdl_document_built` event change the tree: a document served without their
+    # change was published before it was complete
+    def _mark(doc):
+        from lxml import etree as _et
+        doc.root_elt.append(_et.Comment(MARKER[4:-3].decode()))
+    for _w in [wsgi] + ([w.xwsgi] if 'x' in need else []):
+        _w.doc.wsdl11.event_manager.add_listener('wsdl_document_built', _mark)
+    # the documented way of pinning the URL: build the WSDL at start-up, after the transport exists
+    w.pre = pre
+    if pre:
+        wsgi.doc.wsdl11.build_interface_document('http://%s/svc' % URL_HOST)
     w.wsdl11 = wsgi.doc.wsdl11
     # unit-level keys: classes with / without protocol specific attributes
     w.keys = []
@@ -672,8 +779,14 @@ def make_world(sched, instrument=True, validator='lxml', monitor=True):
     watch_attrs(sched, wsgi, {'_wsdl': (RD_APP, WR_APP, encdoc)})
     watch_attrs(sched, w.wsdl11, {'_Wsdl11__wsdl': (RD_B, WR_B, encdoc)})
     if monitor:
-        for o in (app, in_prot, out_prot, app.interface, wsgi.doc, wsgi.doc.xml_schema,
-                  w.japp, w.j_in, w.j_out, w.japp.interface, w.jwsgi, w.jwsgi.doc):
+        shared = [app, in_prot, out_prot, app.interface, wsgi.doc, wsgi.doc.xml_schema]
+        if 'j' in need:
+            shared += [w.japp, w.j_in, w.j_out, w.japp.interface, w.jwsgi, w.jwsgi.doc]
+        if 'x' in need:
+            shared += [w.xapp, w.x_in, w.x_out, w.xapp.interface, w.xwsgi, w.xwsgi.doc, w.xwsgi.doc.wsdl11]
+        if 'y' in need:
+            shared += [w.yapp, w.yapp.in_protocol, w.yapp.out_protocol, w.yapp.interface, w.ywsgi]
+        for o in shared:
             try:
                 monitor_writes(sched, o)
             except TypeError:
@@ -759,15 +872,51 @@ def req_body(r):
         return json.dumps({'jnosuch%d' % r[1]: {}}).encode('utf8')
     if kind == 'jgarbage':
         return b'{not-json %d' % r[1]
+    if kind == 'jpar':         # r[3]: 'pos' = the object as a JSON array of its member values, 'dict' = as an object
+        return json.dumps({'jpar': {'p': [r[1], r[2]] if r[3] == 'pos' else {'a': r[1], 'b': r[2]}}}).encode('utf8')
+    if kind == 'jchi':
+        return json.dumps({'jchi': {'p': [r[1], r[2], r[3]] if r[4] == 'pos' else
+                                    {'a': r[1], 'b': r[2], 'c': r[3]}}}).encode('utf8')
+    if kind == 'jtags':
+        return json.dumps({'jtags': {'x': {'t': r[1]}}}).encode('utf8')
+    # ---- soft-validation SOAP application
+    if kind == 'xwsdl':
+        return None
+    if kind == 'ytags':
+        return ('<?xml version="1.0" encoding="utf-8"?>'
+                '<soap11env:Envelope xmlns:soap11env="http://schemas.xmlsoap.org/soap/envelope/" xmlns:y="%s">'
+                '<soap11env:Body><y:ytags><y:x>%s</y:x></y:ytags></soap11env:Body></soap11env:Envelope>'
+                % (TNS + '.y', ''.join('<y:t>%s</y:t>' % v for v in r[1]))).encode('utf8')
+    if kind in ('xget', 'xpoly', 'xpar', 'xchi'):
+        X, X2 = TNS + '.x', TNS + '.x2'
+        if kind == 'xget':
+            b = '<x:xget><x:s>%s</x:s></x:xget>' % r[1]
+        elif kind == 'xpoly':
+            b = '<x:xpoly><x:kind>%s</x:kind></x:xpoly>' % r[1]
+        elif kind == 'xpar':
+            b = '<x:xpar><x:p><x:a>%s</x:a><x:b>%d</x:b></x:p></x:xpar>' % (r[1], r[2])
+        else:
+            b = '<x:xchi><x:p><x:a>%s</x:a><x:b>%d</x:b><y:c>%s</y:c></x:p></x:xchi>' % (r[1], r[2], r[3])
+        return ('<?xml version="1.0" encoding="utf-8"?>'
+                '<soap11env:Envelope xmlns:soap11env="http://schemas.xmlsoap.org/soap/envelope/" '
+                'xmlns:x="%s" xmlns:y="%s"><soap11env:Body>%s</soap11env:Body></soap11env:Envelope>'
+                % (X, X2, b)).encode('utf8')
     raise ValueError(r)
 
 def is_json(r):
     return r[0].startswith('j')
 
+def needs(reqs):
+    """which of the additional applications the requests address"""
+    return ''.join(sorted(set(r[0][0] for r in reqs if r[0][0] in 'jxy' and r[0] not in ('jxy',))))
+
+def is_soft(r):
+    return r[0].startswith('x')
+
 def call_wsgi(wsgi, r):
     """process one request in-process; returns (status, content-type, body bytes)"""
     if isinstance(wsgi, World):
-        wsgi = wsgi.jwsgi if is_json(r) else wsgi.wsgi
+        wsgi = wsgi.jwsgi if is_json(r) else wsgi.xwsgi if is_soft(r) else wsgi.ywsgi if r[0].startswith('y') else wsgi.wsgi
     body = req_body(r)
     env = {'SERVER_NAME': URL_HOST, 'SERVER_PORT': '80', 'wsgi.url_scheme': 'http', 'SCRIPT_NAME': '',
            'PATH_INFO': '/svc', 'HTTP_HOST': URL_HOST, 'wsgi.errors': io.StringIO(),
@@ -797,7 +946,8 @@ def unit_body(w, sched, r):
     if kind == 'wsdl':
         def f():
             st, ct, data, hd = call_wsgi(w.wsgi, r)
-            return ['wsdl', st, w.docid(data) if st.startswith('200') else -1, hashlib.md5(data).hexdigest(), hd]
+            return ['wsdl', st, w.docid(data) if st.startswith('200') else -1, hashlib.md5(data).hexdigest(), hd,
+                    MARKER in data]
         return f
     if kind == 'attrs':
         def f():
@@ -859,7 +1009,7 @@ def unit_body(w, sched, r):
                     fs = fs.decode('ascii', 'replace')
                 return ['fault', errid(str(fs))]
         return f
-    if kind == 'idle':
+    if kind in ('idle', 'prebuilt'):
         return None
     # any other descriptor: a full WSGI request
     def f():
@@ -896,7 +1046,7 @@ def alone(r):
         kind = r[0]
         if kind == 'wsdl':
             st, ct, data, hd = call_wsgi(w.wsgi, r)
-            res = ['wsdl', st, 0 if data == oracle_docs()[0] else 99, hashlib.md5(data).hexdigest(), hd]
+            res = ['wsdl', st, 0 if data == oracle_docs()[0] else 99, hashlib.md5(data).hexdigest(), hd, True]
         elif kind == 'attrs':
             def encval(k, attr):
                 return 10 * k + (1 if attr.get('sub_name') == 'c' else 0) + (2 if attr.get('min_len') == 7 else 0)
@@ -925,8 +1075,9 @@ LINE_FUNCS_SHARED = [
 def run_once(reqs, chooser, lines=None, monitor=True):
     """reqs: list of request descriptors (thread i runs reqs[i]).  Returns a dict."""
     d0, d1 = oracle_docs()
+    pre = any(r[0] == 'prebuilt' for r in reqs)
     sched = Sched(chooser, line_funcs=lines)
-    w = make_world(sched, monitor=monitor)
+    w = make_world(sched, monitor=monitor, pre=pre, need=needs(reqs))
     w.docnames = {hashlib.md5(d0).hexdigest(): 0, hashlib.md5(d1).hexdigest(): 1}
     patch_update(sched)
     from spyne.util.memo import memoize
@@ -944,7 +1095,7 @@ def run_once(reqs, chooser, lines=None, monitor=True):
         unpatch_update()
         for m, lk in saved_locks:
             m.lock = lk
-    return {'reqs': reqs, 'results': results, 'trace': list(sched.trace), 'decisions': sched.decisions,
+    return {'reqs': reqs, 'pre': pre, 'results': results, 'trace': list(sched.trace), 'decisions': sched.decisions,
             'builds': sched.builds, 'abort': sched.abort, 'writes': sorted(set(sched.shared_writes)),
             'diverged': getattr(chooser, 'diverged', False)}
 
@@ -1021,6 +1172,7 @@ def lines_of(name):
 ALLOWED_WRITES = {
     ('Wsdl11', '_Wsdl11__wsdl'), ('Wsdl11', 'root_elt'), ('Wsdl11', 'root_tree'), ('Wsdl11', 'schema_dict'),
     ('Wsdl11', 'url'), ('Wsdl11', 'service_elt'), ('Wsdl11', 'namespaces'), ('Wsdl11', 'complex_types'),
+    ('WsgiApplication', '_wsdl'),    # the un-instrumented applications: the lock-guarded lazy document itself
 }
 
 def req_kind(r):
@@ -1043,7 +1195,7 @@ def judge(check, run):
         rep = {'reqs': reqs, 'lines': run.get('lines'), 'decisions': [d[1] for d in run['decisions']],
                'n_switch_points': len(run['decisions']),
                'observed': {str(k): v for k, v in results.items()},
-               'expected_alone': {str(i): alone(r) for i, r in enumerate(reqs) if r[0] != 'idle'},
+               'expected_alone': {str(i): alone(r) for i, r in enumerate(reqs) if r[0] not in ('idle', 'prebuilt')},
                'builds': run['builds'], 'access_trace': run['trace'][:400]}
         if extra:
             rep.update(extra)
@@ -1059,8 +1211,12 @@ def judge(check, run):
     if run['builds'] > 1:
         fail('C12|wsdl|built-%d-times' % run['builds'],
              'build_interface_document executed %d times for one WsgiApplication' % run['builds'])
+    if run.get('pre') and run['builds'] > 0:
+        fail('C12|wsdl|rebuilt-after-prebuild',
+             'the WSDL had been built at start-up (wsgi_app.doc.wsdl11.build_interface_document(url)); a ?wsdl '
+             'request built it again (%d more executions) on the already filled builder' % run['builds'])
     for i, r in enumerate(reqs):
-        if r[0] == 'idle':
+        if r[0] in ('idle', 'prebuilt'):
             continue
         res = results.get(i)
         exp = alone(r)
@@ -1071,6 +1227,11 @@ def judge(check, run):
                  'request %r raised %s under concurrency (alone: %r): %s' % (r, res[1], exp, res[2][-300:]))
             continue
         got = res[1]
+        if (r[0] == 'wsdl' and got[1].startswith('200') and not got[5]) or \
+                (r[0] == 'xwsdl' and got[1].startswith('200') and MARKER.decode() not in got[3]):
+            fail('C12|wsdl|published-before-document-built-handlers',
+                 '?wsdl requester %d was served a document without the change made by the wsdl_document_built '
+                 'handler: the document was published before it was complete' % i)
         if got != exp:
             if r[0] == 'wsdl':
                 what = ('?wsdl requester %d received %s instead of the sequential document'
@@ -1150,8 +1311,8 @@ def coq_case(run):
     for i, r in enumerate(reqs):
         if i in model_threads:
             res.append('(%s, %s)' % (gz(i), coq_resp(r, run['results'].get(i))))
-    return '(%s, %s, %s, %s)' % (
-        glist([coq_req(r) for r in reqs]),
+    return '(%s, %s, %s, %s, %s)' % (
+        gbool(run.get('pre', False)), glist([coq_req(r) for r in reqs]),
         glist(['(%s, %s, %s, %s)' % tuple(gz(x) for x in e) for e in tr]),
         glist(res), gz(run['builds']))
 
@@ -1200,6 +1361,69 @@ def unit_scenarios(check, tier):
                 s.append(['sort', [rng.randrange(N_KEYS) for _ in range(rng.randint(1, 3))]])
         sc.append(s)
     return sc
+
+def x_request(rng):
+    """requests whose answer depends on lazily filled or class-keyed state: second-namespace and polymorphic
+    responses around a ?wsdl of the same application, parameter types related by inheritance (XML, JSON object
+    form and JSON positional form), repeated members with a list default"""
+    c = rng.random()
+    if c < 0.14:
+        return ['xwsdl']
+    if c < 0.28:
+        return ['xget', rng.choice(['a', 'bb'])]
+    if c < 0.4:
+        return ['xpoly', rng.choice(['c', 'b'])]
+    if c < 0.5:
+        return ['xpar', rng.choice(['p', 'q']), rng.randint(0, 9)]
+    if c < 0.6:
+        return ['xchi', rng.choice(['p', 'q']), rng.randint(0, 9), rng.choice(['y', 'z'])]
+    if c < 0.7:
+        return ['jpar', rng.choice(['p', 'q']), rng.randint(0, 9), rng.choice(['pos', 'pos', 'dict'])]
+    if c < 0.82:
+        return ['jchi', rng.choice(['p', 'q']), rng.randint(0, 9), rng.choice(['y', 'z']), rng.choice(['pos', 'pos', 'dict'])]
+    if c < 0.91:
+        return ['jtags', [rng.choice(['a', 'b']) for _ in range(rng.randint(0, 2))]]
+    return ['ytags', [rng.choice(['a', 'b']) for _ in range(rng.randint(0, 2))]]
+
+def any_request(rng):
+    c = rng.random()
+    return http_request(rng) if c < 0.45 else json_request(rng) if c < 0.7 else x_request(rng)
+
+# request histories: processed one after the other in EVERY order on one application (and interleaved, in the
+# end-to-end pass), each response compared with the response of the same request on a fresh application
+HISTORIES = [
+    [['xget', 'a'], ['xwsdl'], ['xget', 'a']],
+    [['xpoly', 'c'], ['xwsdl'], ['xpoly', 'b']],
+    [['xpar', 'p', 1], ['xchi', 'q', 2, 'z']],
+    [['jpar', 'p', 1, 'pos'], ['jchi', 'q', 2, 'z', 'pos']],
+    [['jpar', 'p', 1, 'dict'], ['jchi', 'q', 2, 'z', 'pos'], ['jpar', 'r', 3, 'pos']],
+    [['jtags', ['a']], ['jtags', ['a']], ['jtags', ['b']]],
+    [['ytags', ['a']], ['ytags', ['a']]],
+    [['prebuilt'], ['wsdl'], ['wsdl']],
+    [['prebuilt'], ['wsdl'], ['echo', 'a', 1], ['wsdl']],
+    [['box', 'ann', 1], ['wsdl'], ['box', 'ann', 1]],
+    [['count', 'ann', [1]], ['box', 'bob', 2], ['tag', 'p']],
+    [['jbox', 'ann', 1], ['jsum', 'bob', [2]], ['jbox', 'ann', 1]],
+]
+
+def histories(check, tier):
+    rng = check.rng
+    sc = [list(h) for h in HISTORIES]
+    for _ in range(4 if tier == 'quick' else 40):
+        sc.append([any_request(rng) for _ in range(rng.randint(2, 4))])
+    return sc
+
+def orders(check, reqs):
+    act = [i for i, r in enumerate(reqs) if r[0] not in ('idle', 'prebuilt')]
+    if len(act) <= 3:
+        return [list(p) for p in itertools.permutations(act)]
+    out = [act, act[::-1]]
+    while len(out) < 8:
+        p = act[:]
+        check.rng.shuffle(p)
+        if p not in out:
+            out.append(p)
+    return out
 
 def json_request(rng):
     c = rng.random()
@@ -1257,14 +1481,16 @@ def http_scenarios(check, tier):
         [['entity', 1], ['invalid', 2], ['echo', 'a', 1]],
         [['jbox', 'ann', 2], ['jbox', 'bob', 1]],
         [['jsum', 'ann', [1, 2]], ['jsq', -3], ['jbadtype', 4]],
-    ]
+    ] + [list(h) for h in HISTORIES[:9]]
     n = 4 if tier == 'quick' else 40
     for i in range(n):
         k = rng.randint(2, 4)
         if i % 4 == 2:      # JSON application only
             sc.append([json_request(rng) for _ in range(k)])
-        elif i % 4 == 3:    # both applications at once (they share the service-independent class-level state)
-            sc.append([json_request(rng) if rng.random() < 0.5 else http_request(rng) for _ in range(k)])
+        elif i % 4 == 3:    # all applications at once (they share the service-independent class-level state)
+            sc.append([any_request(rng) for _ in range(k)])
+        elif i % 4 == 1:    # class-keyed / lazily filled state
+            sc.append([x_request(rng) for _ in range(k)])
         else:
             sc.append([http_request(rng) for _ in range(k)])
     return sc
@@ -1383,7 +1609,7 @@ def run(check):
         bound = 2 if len(reqs) <= 2 else 1
         if not quick:
             bound += 1
-        budget = (300 if len(reqs) <= 2 else 160) if quick else (800 if len(reqs) <= 2 else 500)
+        budget = (160 if len(reqs) <= 2 else 80) if quick else (800 if len(reqs) <= 2 else 500)
         for r in explore(check, reqs, None, bound, budget):
             account(r, 'access_level')
             handle(check, r, cases)
@@ -1392,21 +1618,32 @@ def run(check):
     phase('access_level')
     # 2. line-granularity exploration (sys.settrace line+return events inside the shared-state code)
     for reqs in unit_scenarios(check, tier)[:N_FIXED_UNIT]:
-        budget = 80 if quick else 600
+        budget = 40 if quick else 600
         for r in explore(check, reqs, LINE_FUNCS_SHARED, 1 if quick else 2, budget):
             account(r, 'line_level')
             handle(check, r, cases)
         tidy()
 
     phase('line_level')
+    # 2b. request histories: no interleaving, every order (a response must not depend on what the application
+    #     has processed before)
+    stats['sequential'] = 0
+    for reqs in histories(check, tier):
+        for order in orders(check, reqs):
+            r = run_once(reqs, OrderChooser(order), None)
+            r['lines'] = None
+            account(r, 'sequential')
+            handle(check, r, cases)
+        tidy()
+    phase('sequential')
     # 3. end-to-end WSGI requests (SOAP calls, faults, validation failures, ?wsdl) at line granularity
     for reqs in http_scenarios(check, tier):
-        budget = 50 if quick else 150
+        budget = 22 if quick else 120
         for r in explore(check, reqs, LINE_FUNCS_SHARED, 1 if quick else 2, budget):
             account(r, 'http')
             handle(check, r, cases)
         # randomized stress: switch points at EVERY line of every spyne/ function
-        for _ in range(10 if quick else 40):
+        for _ in range(4 if quick else 30):
             r = run_once(reqs, RandomChooser(check.rng, check.rng.choice([0.002, 0.01, 0.05])), 'ALL')
             r['lines'] = 'ALL'
             account(r, 'random_all_lines')
